@@ -136,6 +136,11 @@ class Spec(PureLibMixin, BaseSpec):
             return vbool(self.cfg_dry_run)
         if name == "required_context_keys":
             return self.REQUIRED
+        if name == "key_origin":
+            # inspection.key_origin: which node produces which context key (any mapping)
+            if getattr(self, "KEY_ORIGIN", None) is None:
+                self.KEY_ORIGIN = in_dict(I, "key_origin")
+            return self.KEY_ORIGIN
         return super().obj_attr(I, v, name)
 
     def arg_value(self, I, name):
@@ -298,6 +303,7 @@ def h_run(spec, tag=""):
                    V.id(z3.Select(z3.Select(hs.larr, lid), idx)) != V.id(rs_in),
                    V.id(z3.Select(z3.Select(hs.larr, lid), idx)) != V.id(spec.RAW))))
         spec.REQUIRED = in_set(I, "required_context_keys")
+        spec.KEY_ORIGIN = None
         spec.RUN_SPACE = V.obj(z3.Int("run_space_cfg"))
         spec.cfg_dry_run = z3.BoolVal(False)
         for k in ("executed", "emit_start", "emit_end"):
